@@ -855,3 +855,86 @@ func foldConst(v ssa.Value, depth int) constant.Value {
 	}
 	return nil
 }
+
+// soleNonNil: v seen through the merges an inlined helper's results go through — a single-store cell, a phi whose
+// other edges are the nil of the helper's error returns: the one value it is when it is not nil.
+func soleNonNil(v ssa.Value) ssa.Value {
+	for i := 0; i < 6; i++ {
+		v = an.ResolveCell(v)
+		ph, ok := v.(*ssa.Phi)
+		if !ok {
+			return v
+		}
+		var one ssa.Value
+		for _, e := range ph.Edges {
+			if an.IsNilConst(e) {
+				continue
+			}
+			if one != nil && one != e {
+				return v
+			}
+			one = e
+		}
+		if one == nil {
+			return v
+		}
+		v = one
+	}
+	return v
+}
+
+// reachesWithout: is there a feasible path (nil-ness of errors and boolean flags followed along the path) from the
+// start of block from to instruction goal that does not execute instruction cut? The semantic form of "cut dominates
+// goal within this iteration" — an inlined helper's early exits join before the caller tests what it returned, so
+// the later lookups of the helper do not dominate structurally although no path that skipped them goes on.
+func reachesWithout(p *an.Prog, f *ssa.Function, from *ssa.BasicBlock, cut, goal ssa.Instruction) bool {
+	s := &an.Search{P: p, Fn: f,
+		Cut:       func(in ssa.Instruction) bool { return in == cut },
+		GoalInstr: func(in ssa.Instruction) bool { return in == goal }}
+	return s.Run(from, 0, nil) != nil
+}
+
+// forwardsTo: f does nothing but call g with its own parameters, in order, and return g's results, in order.
+func forwardsTo(f, g *ssa.Function) bool {
+	if f == nil || g == nil || len(f.Blocks) != 1 || f.Signature.Recv() != nil {
+		return false
+	}
+	var call *ssa.Call
+	var ret *ssa.Return
+	for _, in := range f.Blocks[0].Instrs {
+		switch x := in.(type) {
+		case *ssa.Call:
+			if call != nil {
+				return false
+			}
+			call = x
+		case *ssa.Extract:
+		case *ssa.Return:
+			ret = x
+		case *ssa.DebugRef:
+		default:
+			return false
+		}
+	}
+	if call == nil || ret == nil || call.Call.StaticCallee() != g || len(call.Call.Args) != len(f.Params) {
+		return false
+	}
+	for i, a := range call.Call.Args {
+		if a != ssa.Value(f.Params[i]) {
+			return false
+		}
+	}
+	for i, r := range ret.Results {
+		if len(ret.Results) == 1 {
+			if r != ssa.Value(call) {
+				return false
+			}
+			continue
+		}
+		ex, ok := r.(*ssa.Extract)
+		if !ok || ex.Tuple != ssa.Value(call) || ex.Index != i {
+			return false
+		}
+	}
+	return true
+}
